@@ -193,6 +193,9 @@ class Finding:
                 'file': self.file, 'line': self.line, 'message': self.message, 'detail': self.detail}
 
 
+CURRENT_RUN = None
+
+
 def load_known():
     p = os.path.join(VERIF, 'known_findings.json')
     if not os.path.exists(p):
@@ -221,6 +224,8 @@ class Run:
         self.bounds = ''
         self.floors = []
         self.controls = []
+        global CURRENT_RUN
+        CURRENT_RUN = self
 
     # ---- bookkeeping
     def rule(self, name, text):
